@@ -27,10 +27,41 @@ ASSUMPTIONS = [
     "named runtime limit; rows of zero kernel mass are counted and excluded from the std clause)",
     "the clause 'at least two labeled samples' refers to the wrapper fallback statistics; for the kernel regressors finiteness of "
     "the std is demanded under a proper prior (kappa_0 > 0, nu_0 > 2, sigma_sq_0 > 0) and for NadarayaWatson with at least one label",
+    "a fitted wrapped estimator returns a finite, non-negative std of its own (checked per case; BayesianRidge with constant labels "
+    "and sample weights returns NaN by itself and is counted, not judged)",
+    "the posterior std of the table-kernel cases is compared with exact rational arithmetic up to 1e-6 relative (incl. labels of "
+    "order 1e9 with unit spread; the two-pass variance of the code is accurate to about 1e-9 there)",
     "bit-exact comparison of posterior parameters needs dyadic kernels / labels / weights and fewer than 8 labeled samples "
     "(numpy then sums left to right)",
 ]
 TRUSTED = ["scipy.stats frozen distributions (mean/std/entropy/rvs) are functions of their parameters and the seed"]
+
+
+def ref_post_std(prior, krow, ylab, wlab):
+    """Exact (fractions.Fraction) posterior standard deviation of the predictive Student-t for one query point, or None when
+    it is not defined (nu_post <= 2, no kernel mass, kappa_post = 0)."""
+    from fractions import Fraction as Fr
+    import math
+
+    k0, n0, m0, s0 = (Fr(float(v)) for v in prior)
+    k = [Fr(float(a)) * (Fr(float(b)) if wlab is not None else 1) for a, b in zip(krow, wlab if wlab is not None else krow)]
+    y = [Fr(float(v)) for v in ylab]
+    if len(y):
+        N = sum(k)
+        if N <= 0:
+            return None
+        mu = sum(a * b for a, b in zip(k, y)) / N
+        var = sum(a * (b - mu) ** 2 for a, b in zip(k, y)) / N
+        ku, nu_, mu_u, su = N, N, mu, var
+    else:
+        ku = nu_ = mu_u = su = Fr(0)
+    kap, nu = k0 + ku, n0 + nu_
+    if kap <= 0 or nu <= 2:
+        return None
+    scatter = n0 * s0 + nu_ * su + k0 * ku * (m0 - mu_u) ** 2 / kap
+    sig = scatter / nu
+    var_t = nu / (nu - 2) * (1 + kap) / kap * sig
+    return math.sqrt(var_t) if var_t > 0 else 0.0
 
 
 def fb(xs):
@@ -202,6 +233,17 @@ def case_nic(ctx, lines, expect, cfg):
                          f"query {q}: std = {std[q]} (df = {df[q]}, kappa_post = {kap[q]}, scale = {np.asarray(rv.kwds['scale']).tolist()})", cfg)
                 if not np.isfinite(mean[q]):
                     viol(ctx, clsname, "predict", "mean-not-finite", f"query {q}: mean = {mean[q]}", cfg)
+            # ---- accuracy against exact rational arithmetic (loose: 1e-6 relative) ----
+            if table is not None:
+                for q in range(nq):
+                    ref = ref_post_std((k0, n0, m0, s0), K[q], y[lab], None if w is None else w[lab])
+                    if ref is None or not ref > 0:
+                        continue
+                    ctx.count("std_compared_with_exact_reference")
+                    if not (np.isfinite(std[q]) and abs(std[q] - ref) <= 1e-6 * ref):
+                        viol(ctx, clsname, "predict", "std-inaccurate",
+                             f"query {q}: std = {std[q]!r} but exact rational arithmetic gives {ref!r} (labels {y[lab].tolist()}, "
+                             f"kernel row {K[q].tolist()}, prior {[k0, n0, m0, s0]})", cfg)
             scale_all = np.broadcast_to(np.asarray(rv.kwds["scale"], dtype=float), (nq,))
             rv_ok = bool(np.all(np.isfinite(df)) and np.all(df > 0) and np.all(np.isfinite(scale_all)) and np.all(scale_all > 0)
                          and np.all(np.isfinite(np.broadcast_to(np.asarray(rv.kwds["loc"], dtype=float), (nq,)))))
@@ -214,6 +256,23 @@ def case_nic(ctx, lines, expect, cfg):
 
 PRIORS = [(0.1, 2.5, 0, 1.0), (1.0, 3.0, 0.5, 2.0), (0.5, 4.0, -1, 0.25), (2, 5, 0, 0), (0, 0, 0, 1.0), (0, 3, 0, 1.0),
           (0.25, 1.0, 0, 1.0), (1, 2, 0, 1), (0.1, 2.5, 2.0, 1.0), (0, 2.5, 0, 1.0)]
+
+
+def gen_nic_offset(rng):
+    """labels of the order 1e8..2e9 with a spread of order 1: any one-pass variance formula cancels catastrophically."""
+    base = rng.choice([1e8, 1e9, 2e9, -1e9])
+    n = rng.randint(2, 7)
+    y = [base + dy(rng, -8, 9, 4) if rng.random() < 0.85 else None for _ in range(n)]
+    if sum(v is not None for v in y) < 2:
+        y[0], y[1] = base + 0.25, base - 1.5
+    nq = rng.randint(1, 3)
+    r = rng.random()
+    nw = r < 0.35
+    prior = [0, 3, 0, 1.0] if r < 0.6 else ([0.5, 4.0, base, 1.0] if r < 0.8 else [0, 2.5, base, 0.5])
+    vals = [0.125, 0.25, 0.5, 1, 1, 2]
+    return dict(kind="nic", nw=nw, prior=prior, y=y, w=[dy(rng, 1, 9, 4) for _ in range(n)] if rng.random() < 0.3 else None,
+                feat=[float(rng.randint(-3, 3)) for _ in range(n)], nq=nq, featq=[float(rng.randint(-3, 3)) for _ in range(nq)],
+                n_samples=rng.randint(1, 3), seed=rng.randrange(2**31 - 1), K=[[rng.choice(vals) for _ in range(n)] for _ in range(nq)])
 
 
 def gen_nic(rng, table=True):
@@ -365,8 +424,18 @@ def case_wrap(ctx, lines, expect, cfg):
     if normal:
         rv, mean, std, ent = check_predict_vs_dist(ctx, lines, expect, reg, Xq, cfg, clsname)
         unf = not hasattr(est, "mean_") and cfg["estimator"].startswith("spy")
+        est_std_ok = True
+        if not unf:
+            try:
+                with np.errstate(all="ignore"):
+                    _, es_own = est.predict(Xq, return_std=True)
+                est_std_ok = bool(np.all(np.isfinite(es_own)) and np.all(np.asarray(es_own) >= 0))
+            except Exception:
+                est_std_ok = True
+            if not est_std_ok:
+                ctx.count("wrapped_estimator_own_std_invalid")   # e.g. BayesianRidge with constant labels and weights: NaN std
         zero_std = unf and len(lab) >= 2 and float(np.std(lab)) == 0.0
-        if not (np.all(np.isfinite(std)) and np.all(std >= 0)):
+        if est_std_ok and not (np.all(np.isfinite(std)) and np.all(std >= 0)):
             viol(ctx, clsname, "predict", "std-not-finite-nonneg", f"std = {std.tolist()} with labels {lab.tolist()}", cfg,
                  "fallback-with-zero-label-std" if zero_std else cfg["estimator"])
         if unf and len(lab) < 8:
@@ -441,6 +510,9 @@ def fixed_cases():
         dict(base, prior=[0.1, 2.5, 0, 1.0], y=[2.0], feat=[0.0], K=[[1.0], [0.5]]),
         dict(base, prior=[0.1, 2.5, 0, 1.0], y=[2.0, None, 4.0, 0.0], feat=[0.0, 1.0, 2.0, 3.0], K=[[1, 9, 0.5, 0.5], [0.25, 9, 0.25, 0.5]]),
         dict(base, nw=True, prior=[0, 3, 0, 1], y=[1.0, 3.0], feat=[0.0, 1.0], K=[[1, 1], [0.5, 0.25]], w=[1.0, 2.0]),
+        dict(base, nw=True, prior=[0, 3, 0, 1], y=[1e9 + 0.25, 1e9 - 1.5, None, 1e9 + 1.0], feat=[0.0, 1.0, 2.0, 3.0],
+             K=[[1, 0.5, 9, 0.5], [0.25, 1, 9, 2]]),
+        dict(base, prior=[0.5, 4.0, 2e9, 1.0], y=[2e9 + 0.5, 2e9 - 0.5, 2e9 + 1.25], feat=[0.0, 1.0, 2.0], K=[[1, 1, 2], [0.125, 0.5, 0.25]]),
         dict(kind="wrap", normal=False, estimator="spy_raise", y=[], w=None, feat=[], featq=[[0.0, 0.0]], n_samples=2, seed=1),
         dict(kind="wrap", normal=True, estimator="spy_std_raise", y=[1.5], w=None, feat=[[0.0, 0.0]], featq=[[0.0, 0.0], [1.0, 1.0]], n_samples=2, seed=1),
         dict(kind="wrap", normal=True, estimator="spy_std_raise", y=[1.5, None, 1.5], w=None, feat=[[0.0, 0.0], [1.0, 1.0], [2.0, 1.0]],
@@ -452,6 +524,8 @@ def fixed_cases():
 
 def gen_any(rng):
     r = rng.random()
+    if r < 0.06:
+        return gen_nic_offset(rng)
     if r < 0.45:
         return gen_nic(rng, table=True)
     if r < 0.55:
@@ -477,7 +551,7 @@ def search(ctx):
     rng = ctx.rng
     lines, expect = [], []
     for _ in range(3000):
-        run_case(ctx, lines, expect, gen_any(rng))
+        run_case(ctx, lines, expect, gen_nic_offset(rng) if rng.random() < 0.6 else gen_any(rng))
         if ctx.violations:
             return
 
